@@ -1,4 +1,5 @@
 import Vata.Proofs.Timbuk
+import Vata.Properties.C13_LoadDump
 /-!
 # C13 – Timbuk text round-trips and malformed text is rejected by an exception
 
@@ -27,6 +28,13 @@ rules written with or without parentheses, empty sections) and for all byte stri
   `Timbuk.parseC` / `Timbuk.serializeC` on `List Char`, with `std::set`s as sorted duplicate-free lists (`Timbuk.norm`).
   `T.splitDelim` (`Vata/Split.lean`) is `split_delim`.  (`Vata/Parse.lean` is the line protocol of the test harness, not
   a subject of this property.)
+* **Between description and automaton.**  The text layer is this file.  The layer `AutDescription ↔ automaton` of the explicit
+  tree encoding – `LoadFromAutDesc` / `DumpToAutDesc`, the state dictionary (`TwoWayDict`) with its weak / strict translators, the
+  alphabet's `(name, rank) ↦ number` dictionary – is `Vata/LoadDump.lean` with `Vata/Properties/C13_LoadDump.lean`;
+  `C13_statement_explicit` at the end of this file composes the two layers.  The classes themselves (`TwoWayDict`, the
+  translators, `Convert::FromString` / `ToString`, `SymbolicVarAsgn`) are modelled as coded in `Vata/Glue.lean`
+  (`Vata/Properties/Util_Glue.lean`); the word automata with their start symbols in `Vata/NfaStart.lean`
+  (`C10_start_dump_load`); the tables of the two BDD encodings in `Vata/BddAbs.lean` / `Vata/BddAbsTD.lean` (`C08_load_dump`).
 * **The exception clause** is read as: the model returns `.error msg` exactly where the C++ throws.  `parseTimbuk` is a
   total Lean function into `Except`, which holds *by construction* (every Lean function terminates and there is no
   memory to corrupt); this typing fact is **not** stated as a theorem, and it says nothing about crashes or hangs of the
@@ -123,14 +131,59 @@ example : parseTimbuk "" = .error "parse_timbuk: Transitions not specified" := r
 example : TimbukTest.rejects "Transitions\na(b -> q\n" = true ∧ TimbukTest.rejects "Transitions\na b -> q\n" = true ∧
     TimbukTest.rejects "Transitions\n-> q\n" = true := by decide
 
+/-! ### text layer and dictionary layer together (explicit tree automaton) -/
+
+/-- **the first two clauses of C13 for the explicit tree encoding, in one statement.**  For every well-formed description
+`d`: (1) parsing its serialisation gives back the same final states and rules; (2) loading `d` (fresh dictionaries), dumping
+the automaton to TEXT with the dictionaries of the load, loading that text again (fresh state dictionary, the alphabet as
+the first load left it) and dumping once more yields the same final states and rules under the same state names; every step
+of the chain succeeds -/
+theorem C13_statement_explicit (d : AutDesc) (hwf : d.WellFormed) :
+    (∃ d', parseTimbuk (serialize d) = .ok d' ∧ d'.final ≈ d.final ∧ d'.trans ≈ d.trans) ∧
+    (∃ A sd yd txt A' sd' yd' d₃, loadTA d [] [] = .ok (A, sd, yd) ∧ dumpString A sd yd = .ok txt ∧
+      loadString txt [] yd = .ok (A', sd', yd') ∧ dumpTA A' sd' yd' = .ok d₃ ∧
+      d₃.final ≈ d.final ∧ d₃.trans ≈ d.trans) :=
+  ⟨C13_parse_serialize d hwf, C13_text_roundtrip d hwf⟩
+
+example : TimbukEx.exD.WellFormed ∧ TimbukEx.exE.WellFormed := by decide
+
 /-!
+## closed since the last refresh of this file
+
+* **"Dump / load through the four encodings … not modelled at all"** – closed for the **explicit tree automaton**
+  (`Vata/Properties/C13_LoadDump.lean`, model `Vata/LoadDump.lean`): `C13_load_numbering`, `C13_dictionary_two_way`,
+  `C13_load_dump_roundtrip`, `C13_load_dump_exact`, `C13_dump_text_load_dump`, `C13_text_roundtrip`, composed with the text
+  layer in `C13_statement_explicit`; as a language equivalence: `C19_dump_reload_equivalent`.
+  For the **explicit finite automaton** the round trip WITH several start symbols per state is `C10_start_load_spec`,
+  `C10_start_dump_load` (`Vata/Properties/C10_StartSymbols.lean`; dictionaries abstracted to a pair of inverse functions).
+  For the two **BDD encodings** the table level is closed – loading a rule list with `AddTransition` and reading the table back
+  is the identity on rules and language (`C08_load_dump`, `C08_bu_load_dump`) – and so is the symbol encoding
+  (`Util_Glue_asgn_ofNum_limits`: `SymbolicVarAsgn(16, f)` is the assignment of the table models;
+  `Util_Glue_asgn_string_roundtrip`: string constructor and `ToString` are inverse, the constructor throws exactly on a
+  character other than `0`, `1`, `X`).
+* **The dictionary classes**: in every history inside its contract a `TwoWayDict` is a bijection between its two maps
+  (`Util_Glue_dict_history`, `Util_Glue_dict_ctor_from_map`); `TranslatorWeak` is the lookup-or-create of the load model
+  (`Util_Glue_weak_is_unionModel`, third component), stays injective for a fresh answer (`Util_Glue_weak_injective`);
+  `TranslatorStrict` is a pure lookup that throws on a miss (`Util_Glue_strict_pure`).
+* **`Convert::FromString<int>`** (the ranks of the `Ops` line): `FromString(ToString(x)) = x` for every integer type, and the
+  exact set of accepted strings (`Util_Glue_convert_roundtrip`, `Util_Glue_convert_accepts`).
+* **A piece of the robustness clause**, for the command line in front of the parser: `parseArguments` is total into
+  "`Arguments` or `std::runtime_error`" and never reads outside `argv`; the `-o` loop never calls `substr` out of range
+  (`Util_CliArgs_parse_total`, `Util_CliArgs_parse_in_bounds`, `Util_CliArgs_option_loop_in_range`) – theorems about the models
+  of `cli/parse_args.cc`, compared with the real code token by token.
+
 ## not yet proved
 
-* **Dump / load through the four encodings** (`LoadFromString` / `DumpToString` of the explicit tree, explicit finite,
-  BDD bottom-up and BDD top-down automata; `loadFromAutDescInternal` / `dumpToAutDescInternal`, the state and symbol
-  dictionaries, the weak / strict translators): not modelled at all.  Only the text layer `AutDescription ↔ text` is
-  proved; "the same rules and final states under the same state names" after dump-and-load is covered by the
-  correspondence check only.
+* **Dump / load of the other three encodings as coded.**  `loadFromAutDescInternal` / `dumpToAutDescInternal` of the explicit
+  finite automaton and of the two BDD encodings are different code (start-state symbols; symbols as bit vectors handed out
+  by the symbol dictionary); what is proved for them is the level below (tables, start-symbol map, symbol assignment) with
+  the dictionaries as parameters, not the loaders themselves.  For the explicit tree automaton the correspondence of
+  `loadTA` / `dumpTA` with the C++ was probed on the examples of `Vata.LoadDumpTest` only, and which exception text comes
+  first when several translations are missing is not modelled (hash order).
+* **A pre-filled state dictionary** is unsafe: `LoadFromAutDesc (desc, stateDict)` restarts the state counter at 0
+  (`C13_prefilled_state_dictionary_clash`, a finding; with the counter at the size of the dictionary the round trip holds,
+  `C13_counter_at_size_roundtrip`).  The same pattern in `DiscontBinaryRelation(rel, dict)`: `BinRel.BinRelEx.counter_restarts_at_zero`.
+  `TwoWayDict::Insert` outside its contract breaks the bijection silently under `NDEBUG` (`Util_Glue_dict_contract_needed`).
 * **Robustness on arbitrary input** ("never crash, hang or corrupt memory", for all byte strings): a claim about the
   compiled C++ that no theorem about a Lean model can establish.  The model parser is total into `Except` by construction;
   there is no theorem that the model returns `.error` *exactly* on the texts on which the C++ throws (that is the
